@@ -263,6 +263,91 @@ class Fn:
             self._defs = D
         return self._defs
 
+    @property
+    def uses(self):
+        """local -> list of (block, position) where it is read (position = statement index, or len(stmts) for the terminator)"""
+        if getattr(self, "_uses", None) is None:
+            U = collections.defaultdict(list)
+
+            def upl(p, acc):
+                acc.add(p["l"])
+                for e in p["p"]:
+                    if isinstance(e, dict) and "ix" in e:
+                        acc.add(e["ix"])
+
+            def uop(o, acc):
+                if o and o["k"] in ("copy", "move"):
+                    upl(o["pl"], acc)
+            for i in sorted(self.live):
+                b = self.blocks[i]
+                for j, s in enumerate(b["stmts"]):
+                    if s["s"] != "assign":
+                        continue
+                    u = set()
+                    r = s["rv"]
+                    k = r["r"]
+                    if k in ("use", "un", "cast", "repeat"):
+                        uop(r["a"], u)
+                    elif k == "bin":
+                        uop(r["a"], u)
+                        uop(r["b"], u)
+                    elif k in ("ref", "rawptr", "discr"):
+                        upl(r["pl"], u)
+                    elif k == "agg":
+                        for o in r["ops"]:
+                            uop(o, u)
+                    lhs = s["lhs"]
+                    if lhs["p"]:
+                        upl(lhs, u)
+                    for l in u:
+                        U[l].append((i, j))
+                t = b["term"]
+                u = set()
+                if t["t"] == "switch":
+                    uop(t["on"], u)
+                elif t["t"] == "call":
+                    for a in t["args"]:
+                        uop(a, u)
+                    if t.get("fop"):
+                        uop(t["fop"], u)
+                    if t["dest"]["p"]:
+                        upl(t["dest"], u)
+                elif t["t"] == "assert":
+                    uop(t["cond"], u)
+                    for v in t["msg"].values():
+                        if isinstance(v, dict):
+                            uop(v, u)
+                elif t["t"] == "drop":
+                    upl(t["pl"], u)
+                for l in u:
+                    U[l].append((i, len(b["stmts"])))
+            self._uses = U
+        return self._uses
+
+    def pos_reach(self, src, dst, avoid):
+        """can execution go from just after position `src` to position `dst` without executing position `avoid`?
+        positions are (block, index); a call's definition takes effect at the terminator (index = len(stmts))"""
+        sb, si = src
+        db, di = dst
+        ab, ai = avoid
+        if sb == db and di > si and not (ab == sb and si < ai < di):
+            return True
+        if ab == sb and ai > si:
+            return False
+        seen = set()
+        st = list(self.lsuccs(sb))
+        while st:
+            n = st.pop()
+            if n in seen or n not in self.live:
+                continue
+            seen.add(n)
+            if n == db and not (ab == n and ai < di):
+                return True
+            if n == ab:
+                continue
+            st += self.lsuccs(n)
+        return False
+
     def single_def(self, l):
         ds = self.defs.get(l, [])
         return ds[0] if len(ds) == 1 else None
